@@ -222,7 +222,7 @@ func (b binOnly[T, PT]) BinarySize() int {
 }
 func (b binOnly[T, PT]) MarshalBinary() ([]byte, error) { return b.V.MarshalBinary() }
 func (b binOnly[T, PT]) unwrap() any                    { return b.V }
-func (b binOnly[T, PT]) UnmarshalBinary(p []byte) error  { return b.V.UnmarshalBinary(p) }
+func (b binOnly[T, PT]) UnmarshalBinary(p []byte) error { return b.V.UnmarshalBinary(p) }
 
 func entryOf[T any, PT interface {
 	*T
@@ -274,7 +274,7 @@ func (j jsonOnly[T]) BinarySize() int {
 	return len(d)
 }
 func (j jsonOnly[T]) MarshalBinary() ([]byte, error) { return json.Marshal(j.V) }
-func (j jsonOnly[T]) UnmarshalBinary(p []byte) error  { return json.Unmarshal(p, j.V) }
+func (j jsonOnly[T]) UnmarshalBinary(p []byte) error { return json.Unmarshal(p, j.V) }
 func (j jsonOnly[T]) unwrap() any                    { return j.V }
 
 func jsonEntryOf[T any](name string, gen func(g *c08Gen) *T) c08Entry {
@@ -318,6 +318,23 @@ func c08Catalog() []c08Entry {
 			return &p
 		}),
 		entryOf("structs.Vector[uint64]", func(g *c08Gen) *structs.Vector[uint64] { return randVec(g, func(x uint64) uint64 { return x }) }),
+		entryOf("structs.Vector[uint64](long)", func(g *c08Gen) *structs.Vector[uint64] {
+			// lengths around multiples of the 8192-element growth step of the decoder (ring degrees 2^13 and above)
+			n := []int{8191, 8192, 8193, 16384, 16385, 20000, 24577}[g.ch.Draw("long-vec-len", 7)]
+			v := make(structs.Vector[uint64], n)
+			for i := range v {
+				v[i] = g.rng.Next()
+			}
+			return &v
+		}),
+		entryOf("structs.Vector[uint16](long)", func(g *c08Gen) *structs.Vector[uint16] {
+			n := []int{8193, 16384, 30000}[g.ch.Draw("long-vec-len", 3)]
+			v := make(structs.Vector[uint16], n)
+			for i := range v {
+				v[i] = uint16(g.rng.Next())
+			}
+			return &v
+		}),
 		entryOf("structs.Vector[uint32]", func(g *c08Gen) *structs.Vector[uint32] { return randVec(g, func(x uint64) uint32 { return uint32(x) }) }),
 		entryOf("structs.Vector[uint16]", func(g *c08Gen) *structs.Vector[uint16] { return randVec(g, func(x uint64) uint16 { return uint16(x) }) }),
 		entryOf("structs.Vector[uint8]", func(g *c08Gen) *structs.Vector[uint8] { return randVec(g, func(x uint64) uint8 { return uint8(x) }) }),
